@@ -80,7 +80,7 @@ PATH_CANON = {
 
 SCALAR_SRC = {
     "int": "int", "float": "float", "bool": "bool", "str": "str",
-    "none": "type(None)", "any": "Any", "bytes": "bytes", "bytearray": "bytearray",
+    "none": "types.NoneType", "any": "Any", "bytes": "bytes", "bytearray": "bytearray",
     "datetime": "datetime.datetime", "date": "datetime.date",
     "time": "datetime.time", "timedelta": "datetime.timedelta",
     "timezone": "datetime.timezone", "zoneinfo": "zoneinfo.ZoneInfo",
